@@ -11,7 +11,7 @@ for id in "$@"; do
   git -C $W apply /verif/$P || echo "$id: patch does not apply"
   out=""
   for c in 01 02 03 04 05 06 07 08 09 10 11 12 13 14 15 16 17 18 19 20; do
-    r=$(bin/simdvet check C$c --repo $W --verif $W.v 2>&1 | grep -A1 VIOLATION | grep 'rule=' | sed 's/^ *rule=\([^ ]*\) construct=\([^ ]*\).*/\1:\2/' | sort -u | tr '\n' ' ')
+    r=$(${SIMDVET:-bin/simdvet} check C$c --repo $W --verif $W.v 2>&1 | grep -A1 VIOLATION | grep 'rule=' | sed 's/^ *rule=\([^ ]*\) construct=\([^ ]*\).*/\1:\2/' | sort -u | tr '\n' ' ')
     [ -n "$r" ] && out="$out C$c[$r]"
   done
   echo "$id:$out" | cut -c1-1200
